@@ -1,0 +1,58 @@
+//go:build verif
+
+package vm
+
+import (
+	"unsafe"
+
+	"github.com/paulsonkoly/calc/memory"
+	"github.com/paulsonkoly/calc/types/value"
+)
+
+// Verification hooks (build tag verif). Read-only observation of the run loop.
+
+const verifOn = true
+
+// VerifStepInfo is what the step hook sees at the top of the dispatch loop.
+type VerifStepInfo struct {
+	IP     int          // instruction about to be executed
+	Ctx    uintptr      // identity of the running context
+	Parent uintptr      // identity of its parent context (0 for main)
+	Main   bool         // running context is the main context
+	M      *memory.Type // memory of the running context
+	Tmp    value.Type   // temp register
+}
+
+// VerifStep, when non nil, is called before every instruction.
+var VerifStep func(vm *Type, info VerifStepInfo)
+
+func verifStep(vm *Type, ctxp *context, ip int, m *memory.Type, tmp value.Type) {
+	if VerifStep == nil {
+		return
+	}
+	info := VerifStepInfo{IP: ip, Ctx: ctxID(ctxp), Main: ctxp == vm.main, M: m, Tmp: tmp}
+	if ctxp.parent != nil {
+		info.Parent = ctxID(ctxp.parent)
+	}
+	VerifStep(vm, info)
+}
+
+// VerifMainIP is the saved instruction pointer of the main context.
+func (vm *Type) VerifMainIP() int { return vm.main.ip }
+
+// VerifMainMemory is the memory of the main context.
+func (vm *Type) VerifMainMemory() *memory.Type { return vm.main.m }
+
+// VerifLiveContexts counts the contexts registered under the main context, recursively.
+func (vm *Type) VerifLiveContexts() int { return countContexts(vm.main) }
+
+func countContexts(c *context) int {
+	n := 0
+	c.children.ForEach(func(_ uint64, child *context) bool {
+		n += 1 + countContexts(child)
+		return true
+	})
+	return n
+}
+
+func ctxID(c *context) uintptr { return uintptr(unsafe.Pointer(c)) }
